@@ -94,15 +94,17 @@ type World struct {
 	lastSaveTip *model.Node
 	reloads     int
 
-	large           bool // long chain mode: chains cross 1000-header file boundaries; checks run per operation
-	straddled       bool
-	splits          []headers.Split // chain splits configured at low heights (hook)
-	splitAfter      map[model.Hash]int
-	splitBefore     map[model.Hash]bool
-	boundary        bool // long chain mode around the automatic clean at height 10000 with the real prune depth
-	quiet           bool // inside a bulk operation: per-event oracle groups are deferred to its end
-	markBeyondPrune bool
-	trimParents     map[*model.Node]bool
+	large              bool // long chain mode: chains cross 1000-header file boundaries; checks run per operation
+	straddled          bool
+	deepReorgSinceSave bool            // a reorganisation deeper than the prune depth since the last completed Save
+	ancestrySuffix     string          // appended to the classes of checkAncestry mismatches (crash images after such a reorganisation)
+	splits             []headers.Split // chain splits configured at low heights (hook)
+	splitAfter         map[model.Hash]int
+	splitBefore        map[model.Hash]bool
+	boundary           bool // long chain mode around the automatic clean at height 10000 with the real prune depth
+	quiet              bool // inside a bulk operation: per-event oracle groups are deferred to its end
+	markBeyondPrune    bool
+	trimParents        map[*model.Node]bool
 
 	twin     *headers.Repository
 	twinLeft int
@@ -557,6 +559,13 @@ func (w *World) afterMutation(oldTip *model.Node, submitted *model.Node, verdict
 		} else {
 			w.c.Probe("reorg")
 			fp := model.ForkPoint(oldTip, tn)
+			if fp != nil && w.pruneDepth > 0 && oldTip.Height-fp.Height > w.depth() {
+				// the best chain was replaced from a fork point deeper than the prune depth (the small
+				// depths of the hook make that reachable; with the real constants it is a reorganisation
+				// of more than 10000 blocks)
+				w.deepReorgSinceSave = true
+				w.c.Probe("reorg-deeper-than-prune-depth")
+			}
 			if fp != nil && tn.Height/realPruneDepth > fp.Height/realPruneDepth && tn.Height%realPruneDepth != 0 && oldTip.Height/realPruneDepth == fp.Height/realPruneDepth {
 				// the best chain passed the height of an automatic clean without ever having its tip on it
 				w.c.Probe("reorg-skipped-automatic-clean-height")
@@ -670,7 +679,7 @@ func (w *World) checkAncestry(inv string, repo *headers.Repository, tn *model.No
 				return false
 			}
 			if !hash.Equal(&x.Hash) {
-				w.c.Fail(inv, "wrong-hash-at-height", "Hash(%d)=%s but the ancestor of the reported tip at that height is n%d %s", h, hash, x.Serial, x.Hash)
+				w.c.Fail(inv, "wrong-hash-at-height"+w.ancestrySuffix, "Hash(%d)=%s but the ancestor of the reported tip at that height is n%d %s", h, hash, x.Serial, x.Hash)
 				return false
 			}
 			hdr, err := repo.Header(w.ctx, h)
@@ -680,11 +689,11 @@ func (w *World) checkAncestry(inv string, repo *headers.Repository, tn *model.No
 			}
 			hh := model.HeaderHash(hdr)
 			if hh != x.Hash {
-				w.c.Fail(inv, "wrong-header-at-height", "Header(%d) hashes to %s, want n%d %s", h, hh, x.Serial, x.Hash)
+				w.c.Fail(inv, "wrong-header-at-height"+w.ancestrySuffix, "Header(%d) hashes to %s, want n%d %s", h, hh, x.Serial, x.Hash)
 				return false
 			}
 			if x.Parent != nil && hdr.PrevBlock != x.Parent.Hash {
-				w.c.Fail(inv, "unlinked", "Header(%d).PrevBlock does not equal Hash(%d)", h, h-1)
+				w.c.Fail(inv, "unlinked"+w.ancestrySuffix, "Header(%d).PrevBlock does not equal Hash(%d)", h, h-1)
 				return false
 			}
 		}
